@@ -86,6 +86,7 @@ def rule_esc_string(ctx, f):
     esc_tab = {ord(k): v for k, v in spec.get("string_escapes", {}).items()}
     wa = {bi for bi, t in F.calls(wb) if last_seg(F.callee_name(t)) == "write_all"}
     loops = cfg.loops()
+    nonspecial_escaped = {}
     for i, bb in enumerate(wb["blocks"]):
         t = bb["term"]
         if t["k"] == "switch" and t["discr_ty"] == "u8":
@@ -93,9 +94,13 @@ def rule_esc_string(ctx, f):
             regs = exclusive_regions(cfg, dict(arms, **{"default": t["otherwise"]}))
             heads = {h for h, body in loops.items() if i in body}
             for v, tg in arms.items():
-                if v not in special:
-                    continue
                 txt = [x for x in consts_written(wb, regs[v] | {tg}) if x.startswith("\\")]
+                if v not in special:
+                    # seeded C04-9: a byte the reader does not treat specially may still be written as an escape ("keep the output
+                    # printable") - then it has to be an escape the reader turns back into that byte
+                    if txt:
+                        nonspecial_escaped.setdefault(v, (txt, tg))
+                    continue
                 raw_follows = any(w == tg or w in cfg.reachable_from(tg, avoid=heads) for w in wa)
                 good = False
                 for x in txt:
@@ -160,6 +165,21 @@ def rule_esc_string(ctx, f):
         hexes = [x for x in fmts if _re.search(r"\{[^}]*[xX]\}", x)]
         ctx.check(bool(hexes) and all(_re.search(r"\{:02[xX]\}", x) for x in hexes), "C04-SIB", "PdfString::serialize#hex-width",
                   "bytes of a hex string are not written as exactly two digits (formats: %s): the reader pairs digits two by two" % hexes, wb["span"], detail="{:02x}")
+        # octal escapes: the reader takes up to three octal digits after the backslash, greedily - an escape of fewer digits swallows a
+        # following '0'..'7' of the string, so every octal placeholder carries the width 03
+        octs = [x for x in fmts if _re.search(r"\{[^}]*o\}", x)]
+        _short = lambda x: any(not _re.fullmatch(r"\{[^:}]*:03o\}", ph) for ph in _re.findall(r"\{[^}]*o\}", x))
+        assert _short(r"\{:o}") and _short(r"\{:3o}") and not _short(r"\{:03o}"), "self-test of the octal-width rule"
+        ctx.check(not any(_short(x) for x in octs), "C04-SIB", "PdfString::serialize#octal-width",
+                  "an octal escape is written with fewer than three digits (formats: %s): the string reader reads up to three octal digits greedily, so "
+                  "`\\1` followed by the character `1` comes back as the single byte 0o11" % [x for x in octs if _short(x)], wb["span"],
+                  detail="octal placeholders %s all `{:03o}` (positive example `\\{:o}` is flagged)" % (octs or "none"))
+        for v, (txt, tg) in sorted(nonspecial_escaped.items()):
+            letter = any(len(x) == 2 and esc_tab.get(ord(x[1])) == v for x in txt)
+            octal = bool(octs) and not any(_short(x) for x in octs)
+            ctx.check(letter or octal, "C04-ESC-str", "PdfString::serialize#escape-of-%d" % v,
+                      "byte %d, which the reader does not treat specially, is written as the escape %s: neither the letter escape of that byte nor a "
+                      "three-digit octal code" % (v, txt), wb["span"], detail="non-special byte %d escaped as %s" % (v, txt))
 
 
 def rule_esc_name(ctx, f):
